@@ -1001,6 +1001,16 @@ class Executor(object):
         lo = 0 if lo is None else force(lo)
         hi = base.len if hi is None else force(hi)
         if not isinstance(lo, int) or not isinstance(hi, int):
+            blk = st.heap.get(base.obj) if base.obj is not None else None
+            if isinstance(blk, StreamBlock) and mx is None and isinstance(hi, int) and hi == base.len and isinstance(base.off, int) and base.off == 0:
+                # buf[n:] of a byte buffer that only stream reads touch: symbolic offset, bounds as an obligation
+                inb = b_and(int_cmp('>=', lo, 0, 64, True), int_cmp('<=', lo, hi, 64, True))
+                if inb is not True:
+                    self.oblige('bounds', st, b_not(inb), 'slice bounds out of range (symbolic low bound)', pos)
+                    if inb is False:
+                        raise PathDead()
+                    st.pc = st.pc + (inb,)
+                return Slice(base.obj, base.path, lo, int_binop('-', hi, lo, 64, True), int_binop('-', base.cap, lo, 64, True))
             raise Unsupported('symbolic slice bounds')
         cap = base.cap if mx is None else mx
         if not (0 <= lo <= hi <= cap <= base.cap):
